@@ -205,6 +205,24 @@ func genSpecials(r *Rng) []special {
 		return sb.String()
 	}
 	out = append(out, special{Name: "oversized-function-edit", Family: "oversized", P: big(1), Q: big(2)})
+	// 4b. beyond the size guard the ONLY edit is the package a callee comes from (same bare name, same
+	// signature): whatever stands in for the fingerprint of an oversized function must still tell them apart
+	bigCallee := func(pkg string) string {
+		var sb strings.Builder
+		sb.WriteString(specialHeader("genmod/" + pkg))
+		sb.WriteString("func Special(a int, b int, s string, xs []int) int {\n\tt := b\n")
+		for i := 0; i < 2600; i++ {
+			fmt.Fprintf(&sb, "\tif a == %d {\n\t\tt += 1\n\t}\n", i%40)
+		}
+		fmt.Fprintf(&sb, "\treturn t + %s.Get(a)\n}\n", pkg)
+		return sb.String()
+	}
+	out = append(out, special{Name: "oversized-function-callee-package-swap", Family: "oversized", Files: files, P: bigCallee("pa"), Q: bigCallee("pb")})
+	// generic functions: the instantiation a generic function calls ITSELF at is part of its meaning
+	gen := func(targ string) string {
+		return specialHeader("fmt") + fmt.Sprintf("func kind[T any](depth int) string {\n\tif depth > 0 {\n\t\treturn kind[%s](depth - 1)\n\t}\n\tvar z T\n\treturn fmt.Sprintf(\"%%T\", z)\n}\n\nfunc Special(a int, b int, s string, xs []int) int {\n\treturn len(kind[bool](1))*%d + a\n}\n", targ, k2)
+	}
+	out = append(out, special{Name: "generic-self-instantiation-changed", Family: "generics", P: gen("string"), Q: gen("int"), Changed: "kind"})
 	// 5. nested counted loops, the two loop variables exchanged in the body
 	nest := func(x, y string) string {
 		return specialHeader() + fmt.Sprintf(`func Special(a int, b int, s string, xs []int) int {
